@@ -17,6 +17,7 @@ RULE = (
     "case JSON; per-block draw counts are in counters."
     ' Also: models holding 2**16+1 .. 2**18+5 observations (thorough up to 2**20+3): fitted-values and export clauses after every whole step.'
     ' Also: growing models (batches of 100 .. 200000 observations between steps).'
+    ' Also: production-size models with 50..95 % inert (clipped) wells, intercept clause included.'
 )
 ASSUMPTIONS = [
     "conjugacy is asserted for observation noise, intercept scale tau0, embedding scales tau (multiplicative gamma process) and for the global treatment scales eta0/eta1/eta2 (given the local scales the sampler holds after the block: the prior precision of V[m] is phi[m]*eta, which the Gaussian-block oracle already pins); the local scales phi* and the auxiliary variables are checked for order, bounds and finiteness only (their hyper-prior is not documented beyond the code)",
@@ -68,6 +69,8 @@ def exhaustive(tier):
     # (1e6) only after some tens of sweeps - states no short history visits
     for n_, D_ in [(2**17 + 6000, 2), (2**18 + 5, 1), (2**16 + 1, 3)] + ([(3 * 2**17 + 77, 2), (2**20 + 3, 1), (2**19 - 1, 2)] if tier != "quick" else []):
         yield {"kind": "big_model", "n": n_, "D": D_, "steps": 3, "seed": n_ % 1000}
+    for n_, inert_ in [(250000, 0.7), (60000, 0.95)] + ([(2**20, 0.9), (400000, 0.5)] if tier != "quick" else []):
+        yield {"kind": "big_model", "n": n_, "D": 1, "steps": 2, "seed": n_ % 991, "inert": inert_}
     # a model that keeps growing: batches of some thousand observations between steps
     for bs_, D_ in [([3000, 3000, 2500], 2), ([5000, 70000], 1), ([1000] * 9, 2)] + ([([4096, 4096, 1], 2), ([40000, 30000, 70000, 200000], 1), ([100] * 50, 1)] if tier != "quick" else []):
         yield {"kind": "big_model", "n": sum(bs_), "D": D_, "steps": len(bs_) + 2, "seed": sum(bs_) % 997, "batches": bs_}
@@ -334,7 +337,11 @@ def _check_big_model(case):
     a = r.integers(0, nt, size=n)
     b = (a + 1 + r.integers(0, nt, size=n)) % (nt + 1)  # another treatment, or (one row in thirteen) the control
     doses = np.where(np.stack([a, b], axis=1) == nt, 0.0, 1.0)
-    screen = Screen(treatment_names=np.stack([names[a], names[b]], axis=1), treatment_doses=doses, observations=r.uniform(0.05, 0.95, size=n), observation_mask=np.ones(n, dtype=bool), sample_names=np.array(["s%d" % i for i in range(ns)])[r.integers(0, ns, size=n)], plate_names=np.array(["p%d" % i for i in range(9)])[r.integers(0, 9, size=n)], control_treatment_name="ctl")
+    obs_ = r.uniform(0.05, 0.95, size=n)
+    if case.get("inert"):
+        # most wells show no effect (viability at or above the upper clipping bound), as in a real screen of mostly inert compounds
+        obs_ = np.where(r.uniform(size=n) < case["inert"], np.where(r.uniform(size=n) < 0.5, 1.0, 1.02), obs_)
+    screen = Screen(treatment_names=np.stack([names[a], names[b]], axis=1), treatment_doses=doses, observations=obs_, observation_mask=np.ones(n, dtype=bool), sample_names=np.array(["s%d" % i for i in range(ns)])[r.integers(0, ns, size=n)], plate_names=np.array(["p%d" % i for i in range(9)])[r.integers(0, 9, size=n)], control_treatment_name="ctl")
     model = scm.SparseDrugCombo(experiment_space=ExperimentSpace.from_screen(screen), n_embedding_dimensions=D)
     model.set_rng(np.random.default_rng(case["seed"] + 1))
     wm = attach(model, "wrapped_model")
@@ -373,6 +380,8 @@ def _big_step_checks(case, model, wm, s_, screen, n, step):
         pred = np.asarray(model.get_model_state().predict_conditional_mean(screen), dtype=float)
         bad = np.flatnonzero(~(np.abs(pred - mu) <= tol))
         require(bad.size == 0, "big.export.predicts_fitted_values", lambda: "%d observations, step %d: the exported sample's predictions for %d training experiments (first: row %d) differ from the sampler's fitted values" % (n, step + 1, bad.size, int(bad[0])))
+        ybar = float(np.mean(s_.y))
+        require(abs(s_.alpha - ybar) <= 1e-5 * (1 + abs(ybar)), "big._alpha_step.mean_of_observations", lambda: "%d observations, step %d: global intercept %r, mean of the transformed observations %r" % (n, step + 1, s_.alpha, ybar))
         # the stored design (sample and the two treatments of every observation) is the data that was handed over, in order
         tid, sid = np.asarray(screen.treatment_ids), np.asarray(screen.sample_ids)
         require(np.array_equal(s_.cl, sid) and np.array_equal(np.sort(np.stack([s_.a, s_.b], axis=1), axis=1), np.sort(tid, axis=1)), "big.stored_design", lambda: "%d observations, step %d: the sampler's stored sample / treatment ids are not those of the observations it was given" % (n, step + 1))
